@@ -43,3 +43,8 @@ def run(chk):
     s.add(x >= 2**255 - 19, x <= 2**255 - 1, z3.Not(z3.And(x % K.P == x - (2**255 - 19), x % K.P <= 18)))
     chk.add(Ob("inputs 2^255-19..2^255-1 reduce to 0..18", str(s.check()), time.time() - t0, [], "LIA"))
     chk.samples = [o.j() for o in chk.obs[:5]]
+
+
+def safety_net(chk):
+    from sym import ptreplay
+    return ptreplay.battery_value_history(chk.seed, "element")
